@@ -977,6 +977,16 @@ def mt_grids(ctx):
     if ctx.quick:
         qg = rng.sample(qg, min(len(qg), 2500))
     out = []
+    # element part: any-metal and any-element against every element; every element query against itself and its neighbours
+    for z in range(1, 119):
+        ad = {**ATOM_DEFAULT, 'z': z}
+        out.append(({**QUERY_DEFAULT, 'head': ('m', 0)}, ad, None))
+        out.append(({**QUERY_DEFAULT, 'head': ('a', 0)}, ad, None))
+        for zq in sorted({z, max(1, z - 1), min(118, z + 1), 57 if z <= 56 else 56, 116, 118} if not ctx.quick or z % 4 == 0 or z > 110
+                         else {z, min(118, z + 1)}):
+            out.append(({**QUERY_DEFAULT, 'head': ('e', zq)}, ad, None))
+        for lst in (LISTS if not ctx.quick else LISTS[::3]):
+            out.append(({**QUERY_DEFAULT, 'head': ('l', tuple(lst))}, ad, None))
     for d in qg:
         # an atom built to satisfy the query, then single-field perturbations of it
         kind, v = d['head']
